@@ -590,7 +590,7 @@ func TestC10(t *testing.T) {
 				}
 				ops := c.Tasks[0].Ops
 				at := rapid.IntRange(0, len(ops)).Draw(t, "rfat")
-				rf := E1Op{Op: "readfrom", Sizes: []int{rfSize}, N: rfStep, Poison: true, Empty: rapid.IntRange(0, 2).Draw(t, "rfempty") == 0, EOFData: rapid.Bool().Draw(t, "rfeofdata")}
+				rf := E1Op{Op: "readfrom", Sizes: []int{rfSize}, N: rfStep, Poison: true, Empty: rapid.IntRange(0, 2).Draw(t, "rfempty") == 0, EOFData: rapid.Bool().Draw(t, "rfeofdata"), Pausing: rapid.Bool().Draw(t, "rfpausing")}
 				c.Tasks[0].Ops = append(append(append([]E1Op{}, ops[:at]...), rf), ops[at:]...)
 				// a few small writes afterwards: they draw from the pool class ReadFrom uses
 				for k := rapid.IntRange(0, 3).Draw(t, "rftail"); k > 0; k-- {
